@@ -7,15 +7,21 @@
 (* (units chosen by the binder, both dyadic so every float operation of    *)
 (* the implementation on lattice inputs is exact).                         *)
 (*                                                                         *)
-(* A template is [T, F, order, t0, ts, f0, fs]: T time bins whose           *)
+(* A template is [T, F, order, t0, ts, f0, fs, fu]: T time bins whose       *)
 (* coordinates are t0 + i*ts, F frequency bins f0 + j*fs, and              *)
 (* order = "ft" (dims (frequency, time)) or "tf" (dims (time, frequency)). *)
+(* fu = Hz per frequency tick, for the binder only: with fu = 1 (and 1 s   *)
+(* per time tick) a tick is the SAME NUMBER on both axes, so a time and a  *)
+(* frequency coordinate can be equal as numbers and still belong to        *)
+(* different bins.  Req never looks at fu: Bin takes the AXIS and the      *)
+(* value, the time lookup and the frequency lookup are independent.        *)
 (* A case is [tpl, geoms, values, scalar, fill, dt].                       *)
 (* A cell is <<i, j>> with 0-based time bin i and frequency bin j.         *)
 (***************************************************************************)
 EXTENDS GeomModel, PlaneGeom, TLC
 
-FMAXT == 20000                    \* MAX_FREQUENCY in frequency ticks of 250 Hz
+FMAXT == 20000                    \* MAX_FREQUENCY in frequency ticks of 250 Hz; with other tick sizes: a frequency beyond
+                                  \* every template (MC_Raster!LawBin), which is all that the lookup of MAX_FREQUENCY depends on
 
 TAxis(tp) == [a |-> tp.t0, s |-> tp.ts, n |-> tp.T]
 FAxis(tp) == [a |-> tp.f0, s |-> tp.fs, n |-> tp.F]
